@@ -38,79 +38,172 @@ theorem NoSWR_useAfter {t : SimT} (h : NoSWR t) (w : String) (h1 : "send-without
   unfold NoSWR at *
   rcases useAfter_violations t w with h' | h' | h' <;> rw [h'] <;> simp [h, h1, h2]
 
+/-! ### fault countdown: `fires` / `letThrough` -/
+
+@[simp] theorem letThrough_cap (t : SimT) (a : Bool) : (t.letThrough a).cap = t.cap := by
+  unfold letThrough; split <;> rfl
+
+@[simp] theorem letThrough_coupled (t : SimT) (a : Bool) : (t.letThrough a).coupled = t.coupled := by
+  unfold letThrough; split <;> rfl
+
+@[simp] theorem letThrough_buffered (t : SimT) (a : Bool) : (t.letThrough a).buffered = t.buffered := by
+  unfold letThrough; split <;> rfl
+
+@[simp] theorem letThrough_wire (t : SimT) (a : Bool) : (t.letThrough a).wire = t.wire := by
+  unfold letThrough; split <;> rfl
+
+@[simp] theorem letThrough_sentLog (t : SimT) (a : Bool) : (t.letThrough a).sentLog = t.sentLog := by
+  unfold letThrough; split <;> rfl
+
+@[simp] theorem letThrough_inbound (t : SimT) (a : Bool) : (t.letThrough a).inbound = t.inbound := by
+  unfold letThrough; split <;> rfl
+
+@[simp] theorem letThrough_eof (t : SimT) (a : Bool) : (t.letThrough a).eof = t.eof := by
+  unfold letThrough; split <;> rfl
+
+@[simp] theorem letThrough_readyOpen (t : SimT) (a : Bool) : (t.letThrough a).readyOpen = t.readyOpen := by
+  unfold letThrough; split <;> rfl
+
+@[simp] theorem letThrough_flushOpen (t : SimT) (a : Bool) : (t.letThrough a).flushOpen = t.flushOpen := by
+  unfold letThrough; split <;> rfl
+
+@[simp] theorem letThrough_faultReady (t : SimT) (a : Bool) : (t.letThrough a).faultReady = t.faultReady := by
+  unfold letThrough; split <;> rfl
+
+@[simp] theorem letThrough_faultSend (t : SimT) (a : Bool) : (t.letThrough a).faultSend = t.faultSend := by
+  unfold letThrough; split <;> rfl
+
+@[simp] theorem letThrough_faultFlush (t : SimT) (a : Bool) : (t.letThrough a).faultFlush = t.faultFlush := by
+  unfold letThrough; split <;> rfl
+
+@[simp] theorem letThrough_faultClose (t : SimT) (a : Bool) : (t.letThrough a).faultClose = t.faultClose := by
+  unfold letThrough; split <;> rfl
+
+@[simp] theorem letThrough_faultNext (t : SimT) (a : Bool) : (t.letThrough a).faultNext = t.faultNext := by
+  unfold letThrough; split <;> rfl
+
+@[simp] theorem letThrough_selfWake (t : SimT) (a : Bool) : (t.letThrough a).selfWake = t.selfWake := by
+  unfold letThrough; split <;> rfl
+
+@[simp] theorem letThrough_closed (t : SimT) (a : Bool) : (t.letThrough a).closed = t.closed := by
+  unfold letThrough; split <;> rfl
+
+@[simp] theorem letThrough_failed (t : SimT) (a : Bool) : (t.letThrough a).failed = t.failed := by
+  unfold letThrough; split <;> rfl
+
+@[simp] theorem letThrough_gotReady (t : SimT) (a : Bool) : (t.letThrough a).gotReady = t.gotReady := by
+  unfold letThrough; split <;> rfl
+
+@[simp] theorem letThrough_readWaker (t : SimT) (a : Bool) : (t.letThrough a).readWaker = t.readWaker := by
+  unfold letThrough; split <;> rfl
+
+@[simp] theorem letThrough_writeWaker (t : SimT) (a : Bool) : (t.letThrough a).writeWaker = t.writeWaker := by
+  unfold letThrough; split <;> rfl
+
+@[simp] theorem letThrough_violations (t : SimT) (a : Bool) : (t.letThrough a).violations = t.violations := by
+  unfold letThrough; split <;> rfl
+
+@[simp] theorem letThrough_isReadyNow (t : SimT) (a : Bool) : (t.letThrough a).isReadyNow = t.isReadyNow := by
+  unfold isReadyNow; simp
+
+@[simp] theorem letThrough_false (t : SimT) : t.letThrough false = t := rfl
+
+theorem fires_false (t : SimT) : t.fires false = false := rfl
+
+/-- the three outcomes of `poll_ready`: the armed fault fires; ready; pending (waker registered) -/
+theorem pollReady_cases (t : SimT) :
+    ((t.useAfter "ready").fires (t.useAfter "ready").faultReady = true ∧
+      t.pollReady = ({ t.useAfter "ready" with faultReady := false, failed := true }, .err, false)) ∨
+    ((t.useAfter "ready").fires (t.useAfter "ready").faultReady = false ∧ (t.useAfter "ready").isReadyNow = true ∧
+      t.pollReady = ({ (t.useAfter "ready").letThrough (t.useAfter "ready").faultReady with gotReady := true }, .ready, false)) ∨
+    ((t.useAfter "ready").fires (t.useAfter "ready").faultReady = false ∧ (t.useAfter "ready").isReadyNow = false ∧
+      t.pollReady = ({ (t.useAfter "ready").letThrough (t.useAfter "ready").faultReady with writeWaker := true }, .pending, false)) := by
+  unfold pollReady
+  generalize t.useAfter "ready" = u
+  cases hf : u.fires u.faultReady
+  · cases hr : u.isReadyNow
+    · right; right; simp [hf, hr]
+    · right; left; simp [hf, hr]
+  · left; simp [hf]
+
+theorem NoSWR_letThrough {t : SimT} (h : NoSWR t) (a : Bool) : NoSWR (t.letThrough a) := by
+  unfold NoSWR at *; simpa using h
+
 theorem NoSWR_pollReady {t : SimT} (h : NoSWR t) : NoSWR t.pollReady.1 := by
   have := NoSWR_useAfter h "ready" (by decide) (by decide)
-  unfold pollReady
-  simp only
-  repeat' split
-  all_goals exact this
+  rcases pollReady_cases t with ⟨_, he⟩ | ⟨_, _, he⟩ | ⟨_, _, he⟩ <;> rw [he]
+  · exact this
+  · exact NoSWR_letThrough this _
+  · exact NoSWR_letThrough this _
 
 theorem pollReady_ready {t : SimT} (h : t.pollReady.2.1 = .ready) : t.pollReady.1.gotReady = true := by
-  unfold pollReady at *
-  simp only at *
-  repeat' split at h
-  all_goals simp_all
+  rcases pollReady_cases t with ⟨_, he⟩ | ⟨_, _, he⟩ | ⟨_, _, he⟩ <;> rw [he] at h ⊢ <;> (try cases h) <;> (try rfl)
 
 theorem pollReady_gotReady {t : SimT} (h : t.gotReady = true) : t.pollReady.1.gotReady = true := by
-  unfold pollReady at *
-  simp only at *
-  repeat' split
-  all_goals simp_all
+  rcases pollReady_cases t with ⟨_, he⟩ | ⟨_, _, he⟩ | ⟨_, _, he⟩ <;> rw [he] <;> simp [h]
 
 @[simp] theorem pollReady_inbound (t : SimT) : t.pollReady.1.inbound = t.inbound := by
-  unfold pollReady
-  simp only
-  repeat' split
-  all_goals simp
+  rcases pollReady_cases t with ⟨_, he⟩ | ⟨_, _, he⟩ | ⟨_, _, he⟩ <;> rw [he] <;> simp
+
+/-- the outcomes of `poll_flush`: the armed fault fires; blocked (pending, waker registered); drained -/
+theorem pollFlush_cases (t : SimT) :
+    ((t.useAfter "flush").fires (t.useAfter "flush").faultFlush = true ∧
+      t.pollFlush = ({ t.useAfter "flush" with faultFlush := false, failed := true }, .err, false)) ∨
+    ((t.useAfter "flush").fires (t.useAfter "flush").faultFlush = false ∧
+      t.pollFlush = ({ (t.useAfter "flush").letThrough (t.useAfter "flush").faultFlush with writeWaker := true }, .pending, false)) ∨
+    ((t.useAfter "flush").fires (t.useAfter "flush").faultFlush = false ∧
+      t.pollFlush = (((t.useAfter "flush").letThrough (t.useAfter "flush").faultFlush).drain.1, .ready,
+        ((t.useAfter "flush").letThrough (t.useAfter "flush").faultFlush).drain.2)) := by
+  unfold pollFlush
+  generalize t.useAfter "flush" = u
+  cases hf : u.fires u.faultFlush
+  · by_cases h2 : (u.coupled && !u.flushOpen && !u.buffered.isEmpty) = true
+    · right; left; simp [hf, h2]
+    · right; right; simp [hf, h2]
+  · left; simp [hf]
+
+theorem drain_fst (t : SimT) :
+    t.drain.1 = { t with wire := t.wire ++ t.buffered, buffered := [] } ∨
+    t.drain.1 = { t with wire := t.wire ++ t.buffered, buffered := [], writeWaker := false } := by
+  unfold drain; simp only; split
+  · right; rfl
+  · left; rfl
 
 theorem NoSWR_pollFlush {t : SimT} (h : NoSWR t) : NoSWR t.pollFlush.1 := by
-  have := NoSWR_useAfter h "flush" (by decide) (by decide)
-  unfold pollFlush drain
-  simp only
-  repeat' split
-  all_goals exact this
+  have := NoSWR_letThrough (NoSWR_useAfter h "flush" (by decide) (by decide)) (t.useAfter "flush").faultFlush
+  rcases pollFlush_cases t with ⟨_, he⟩ | ⟨_, he⟩ | ⟨_, he⟩ <;> rw [he]
+  · exact NoSWR_useAfter h "flush" (by decide) (by decide)
+  · exact this
+  · simp only
+    rcases drain_fst ((t.useAfter "flush").letThrough (t.useAfter "flush").faultFlush) with hd | hd <;> rw [hd] <;> exact this
 
 @[simp] theorem pollFlush_gotReady (t : SimT) : t.pollFlush.1.gotReady = t.gotReady := by
-  unfold pollFlush drain
-  simp only
-  repeat' split
-  all_goals simp
+  rcases pollFlush_cases t with ⟨_, he⟩ | ⟨_, he⟩ | ⟨_, he⟩ <;> rw [he] <;> simp
+  rcases drain_fst ((t.useAfter "flush").letThrough (t.useAfter "flush").faultFlush) with hd | hd <;> rw [hd] <;> simp
 
 @[simp] theorem pollFlush_inbound (t : SimT) : t.pollFlush.1.inbound = t.inbound := by
-  unfold pollFlush drain
-  simp only
-  repeat' split
-  all_goals simp
+  rcases pollFlush_cases t with ⟨_, he⟩ | ⟨_, he⟩ | ⟨_, he⟩ <;> rw [he] <;> simp
+  rcases drain_fst ((t.useAfter "flush").letThrough (t.useAfter "flush").faultFlush) with hd | hd <;> rw [hd] <;> simp
 
 /-- `poll_flush → Pending` leaves the owner's waker registered. -/
 theorem pollFlush_pending {t : SimT} (h : t.pollFlush.2.1 = .pending) : t.pollFlush.1.writeWaker = true := by
-  unfold pollFlush at *
-  generalize t.useAfter "flush" = u at *
-  by_cases h1 : u.faultFlush = true
-  · simp [h1] at h
-  · by_cases h2 : (u.coupled && !u.flushOpen && !u.buffered.isEmpty) = true
-    · simp [h1, h2]
-    · simp [h1, h2] at h
+  rcases pollFlush_cases t with ⟨_, he⟩ | ⟨_, he⟩ | ⟨_, he⟩ <;> rw [he] at h ⊢ <;> (try cases h) <;> (try rfl)
 
 @[simp] theorem drain_buffered (t : SimT) : t.drain.1.buffered = [] := by
   unfold drain; simp only; split <;> rfl
 
 /-- `poll_flush → Ready` leaves nothing buffered. -/
 theorem pollFlush_ready {t : SimT} (h : t.pollFlush.2.1 = .ready) : t.pollFlush.1.buffered = [] := by
-  unfold pollFlush at *
-  generalize t.useAfter "flush" = u at *
-  by_cases h1 : u.faultFlush = true
-  · simp [h1] at h
-  · by_cases h2 : (u.coupled && !u.flushOpen && !u.buffered.isEmpty) = true
-    · simp [h1, h2] at h
-    · simp [h1, h2]
+  rcases pollFlush_cases t with ⟨_, he⟩ | ⟨_, he⟩ | ⟨_, he⟩ <;> rw [he] at h ⊢ <;> (try cases h)
+  exact drain_buffered _
 
 theorem NoSWR_startSend {t : SimT} (h : NoSWR t) (hg : t.gotReady = true) (m : Msg) : NoSWR (t.startSend m).1 := by
   have := NoSWR_useAfter h "send" (by decide) (by decide)
   unfold startSend
   simp only [useAfter_gotReady, hg, if_true]
-  repeat' split
-  all_goals exact this
+  split
+  · exact this
+  · exact NoSWR_letThrough this _
 
 @[simp] theorem startSend_inbound (t : SimT) (m : Msg) : (t.startSend m).1.inbound = t.inbound := by
   unfold startSend violate
@@ -123,11 +216,17 @@ def wside (t : SimT) :=
   (t.cap, t.coupled, t.buffered, t.wire, t.sentLog, t.readyOpen, t.flushOpen, t.faultReady, t.faultSend,
    t.faultFlush, t.faultClose, t.closed, t.failed, t.gotReady, t.writeWaker, t.violations)
 
+theorem wside_letThrough (t : SimT) (a : Bool) : wside (t.letThrough a) = wside t := by
+  unfold letThrough; split <;> rfl
+
 theorem wside_pollNext (t : SimT) : wside t.pollNext.1 = wside t := by
   unfold SimT.pollNext
   split
   · rfl
-  · split <;> try rfl
+  · simp only
+    rw [← wside_letThrough t t.faultNext]
+    generalize t.letThrough t.faultNext = u
+    split <;> try rfl
     split <;> rfl
 
 theorem wside_gotReady {t t' : SimT} (h : wside t' = wside t) : t'.gotReady = t.gotReady := by
@@ -142,16 +241,35 @@ theorem wside_buffered {t t' : SimT} (h : wside t' = wside t) : t'.buffered = t.
 theorem wside_writeWaker {t t' : SimT} (h : wside t' = wside t) : t'.writeWaker = t.writeWaker := by
   simp only [wside, Prod.mk.injEq] at h; exact h.2.2.2.2.2.2.2.2.2.2.2.2.2.2.1
 
-theorem pollNext_inbound_le (t : SimT) : t.pollNext.1.inbound.length ≤ t.inbound.length := by
+/-- `poll_next`, with the state after the fault countdown named -/
+theorem pollNext_cases (t : SimT) :
+    (t.fires t.faultNext = true ∧ t.pollNext = ({ t with faultNext := false }, .err)) ∨
+    (t.fires t.faultNext = false ∧ ∃ u : SimT, u = t.letThrough t.faultNext ∧ u.inbound = t.inbound ∧
+      t.pollNext = (match u.inbound with
+        | .msg m :: rest => ({ u with inbound := rest }, .item m)
+        | .err :: rest => ({ u with inbound := rest }, .err)
+        | [] => if u.eof then (u, .eof) else ({ u with readWaker := true }, .pending))) := by
   unfold SimT.pollNext
-  repeat' split
-  all_goals simp_all
+  cases hf : t.fires t.faultNext
+  · right
+    refine ⟨rfl, t.letThrough t.faultNext, rfl, by simp, ?_⟩
+    rfl
+  · left; exact ⟨rfl, by simp⟩
+
+theorem pollNext_inbound_le (t : SimT) : t.pollNext.1.inbound.length ≤ t.inbound.length := by
+  rcases pollNext_cases t with ⟨_, he⟩ | ⟨_, u, _, hi, he⟩ <;> rw [he]
+  · simp
+  · rw [← hi]
+    repeat' split
+    all_goals simp_all
 
 theorem pollNext_inbound_lt {t : SimT} {m : Msg} (h : t.pollNext.2 = .item m) :
     t.pollNext.1.inbound.length < t.inbound.length := by
-  unfold SimT.pollNext at *
-  repeat' split at h
-  all_goals simp_all
+  rcases pollNext_cases t with ⟨_, he⟩ | ⟨_, u, _, hi, he⟩ <;> rw [he] at h ⊢
+  · cases h
+  · rw [← hi]
+    repeat' split at h
+    all_goals simp_all
 
 end SimT
 
@@ -1027,6 +1145,8 @@ theorem PrimClosed.applyOp (c : Sys) (hc : PrimClosed c.now P) (op : SOp) (h : P
   | setReady b => exact hc.liftT _ _ h
   | setFlush b => exact hc.liftT _ _ h
   | fault k => exact hc.setT _ _ h
+  | faultSkip n => exact hc.setT _ _ h
+  | selfWake b => exact hc.setT _ _ h
   | take n => exact hc.took _ _ (hc.setT _ _ h)
   | advance n => exact absurd rfl (hop n)
 
@@ -1393,6 +1513,8 @@ theorem W_applyOp (c : Sys) (op : SOp) (h : W c.s) (hcfg : c.s.throttleAfterRead
   | setReady b => unfold W SimT.NoSWR; simp only [applyOp, liftT_t, SimT.setReady, wakeIfReady_violations]; exact h
   | setFlush b => unfold W SimT.NoSWR; simp only [applyOp, liftT_t, SimT.setFlush, wakeIfReady_violations]; exact h
   | fault k => unfold W SimT.NoSWR; simp only [applyOp]; cases k <;> exact h
+  | faultSkip n => exact h
+  | selfWake b => exact h
   | take n => unfold W SimT.NoSWR; simp only [applyOp, SimT.take, took_t]; exact h
   | advance n => unfold W; simp only [applyOp, onAdvance_t]; exact h
 
@@ -2263,6 +2385,8 @@ theorem NS_applyOp (c : Sys) (op : SOp) (h : NS c.s) (hcfg : c.s.throttleAfterRe
   | setReady b => exact hc.liftT _ _ h
   | setFlush b => exact hc.liftT _ _ h
   | fault k => exact NS_of_obs h rfl
+  | faultSkip n => exact NS_of_obs h rfl
+  | selfWake b => exact NS_of_obs h rfl
   | take n => exact hc.took _ _ (NS_of_obs (s' := { c.s with t := (c.s.t.take n).1 }) h rfl)
   | advance n => exact hc.onAdvance _ _ h
 
